@@ -16,7 +16,7 @@ git -C /repo worktree remove --force $wt 2>/dev/null
 git -C /repo worktree add -q --detach $wt HEAD || exit 2
 res=""
 if [ -z "$SKIPCONFIRM" ]; then
-( cd $wt && git apply $src/patch.diff ) || { echo "patch does not apply"; git -C /repo worktree remove --force $wt; exit 2; }
+( cd $wt && git apply -3 $src/patch.diff ) || { echo "patch does not apply"; git -C /repo worktree remove --force $wt; exit 2; }
 ( cd $wt && go build ./... ) && res="$res build=ok" || res="$res build=FAIL"
 ( cd $wt && unshare -n sh -c 'ip link set lo up; go test -vet=off -count=1 -timeout 25m . ' >/tmp/seed_suite_$id$n.log 2>&1 ) && res="$res suite_with_patch=pass" || res="$res suite_with_patch=FAIL"
 demo=$(ls $src/*_test.go 2>/dev/null | head -1)
@@ -33,7 +33,7 @@ mkdir -p $dst && cp $src/patch.diff $dst/ && cp $src/*_test.go $dst/ 2>/dev/null
 echo "CONFIRM $id-$n:$res"
 echo "$res" > $dst/confirm.txt
 fi
-( cd $wt && git apply $src/patch.diff ) || { echo "cannot apply"; exit 2; }
+( cd $wt && git apply -3 $src/patch.diff ) || { echo "cannot apply"; exit 2; }
 out=""
 scratch=$(mktemp -d)
 for p in $props; do
